@@ -86,6 +86,28 @@ type StructWidths struct {
 	F64 float64 `cty:"f64"`
 }
 
+// Two DIFFERENT struct types that share their name (and so their
+// reflect.Type.String(), "c18.Rec") but not their layout: declared in function
+// scope. Anything the library remembers about a Go type must be remembered per
+// type identity, not per type name.
+func localRecA() any {
+	type Rec struct {
+		Name string `cty:"name"`
+		N    *int   `cty:"n"`
+	}
+	return Rec{}
+}
+
+func localRecB() any {
+	type Rec struct {
+		N    int8   `cty:"n"`
+		Skip int
+		Ok   bool   `cty:"ok"`
+		Name string `cty:"label"`
+	}
+	return Rec{}
+}
+
 var (
 	bigIntT   = reflect.TypeOf(big.Int{})
 	bigFloatT = reflect.TypeOf(big.Float{})
@@ -182,6 +204,8 @@ func buildFamily() (map[string]reflect.Type, []string) {
 	reg("PtrStructNested", (*StructNested)(nil))
 	reg("SliceStructDyn", []StructDyn(nil))
 	reg("SlicePtrStructFlat", []*StructFlat(nil))
+	reg("LocalRecA", localRecA())
+	reg("LocalRecB", localRecB())
 	// embedded dynamic values
 	reg("Dyn", cty.Value{})
 	reg("SliceDyn", []cty.Value(nil))
